@@ -66,6 +66,7 @@ PROP_MODELS = {
     'C15': ['sqrt', 'numpy.poly1d', 'mutableseq'],
     'C11': ['sqrt', 'numpy.poly1d', 'numpy.roots', 'mutableseq'],
     'C12': ['sqrt', 'numpy.poly1d', 'numpy.roots'],
+    'C07': ['sqrt', 'mutableseq'],
     'C08': ['sqrt', 'numpy.poly1d', 'numpy.roots', 'mutableseq'],
     'C14': ['numpy.poly1d', 'numpy.small', 'mutableseq'],
     'C09': ['mutableseq'],
